@@ -1,6 +1,7 @@
 import Faithful.Generated.GoFns
 import Faithful.Lib.IndexMeta
 import Faithful.Lib.CompactIndex
+import Faithful.Lib.CompactIndexBytes
 import Faithful.Ties.Basic
 import Faithful.Ties.C10
 /-!
@@ -48,5 +49,278 @@ theorem unle8_lt (b : List UInt8) : B.unle (b.take 8) < 18446744073709551616 := 
   have h2 : (b.take 8).length ≤ 8 := by simp; omega
   calc B.unle (b.take 8) < 256 ^ (b.take 8).length := this
     _ ≤ 256 ^ 8 := Nat.pow_le_pow_right (by omega) h2
+
+
+/-- `if c { return err }` followed by `k`, exactly as the do-notation of the translation elaborates it -/
+def guard {α : Type} (c : Bool) (e : String) (k : Unit → M α) : M α :=
+  if c = true then (throw (Err.err e) >>= k) else k ()
+
+theorem guard_eq {α : Type} (c : Bool) (e : String) (k : Unit → M α) :
+    guard c e k = if c = true then .error (.err e) else k () := by
+  unfold guard; cases c <;> rfl
+
+/-- the translated `Header.Load`, restated with `guard` (tied to the translation by `rfl` below) -/
+def loadM (fuel : Nat) (buf : List UInt8) : M Compactindexsized_Header :=
+  guard (decide (Go.len buf < 12)) "invalid header length" fun _ =>
+  Go.slice buf 0 8 >>= fun t1 =>
+  guard (t1 != [99, 111, 109, 112, 105, 115, 122, 100]) "not a radiance compactindex file" fun _ =>
+  Go.slice buf 8 12 >>= fun t3 =>
+  Go.leU32 t3 >>= fun t2 =>
+  guard (decide (t2 < 13) || decide (t2 > 130574)) "invalid header length" fun _ =>
+  guard (decide (t2.toUInt64 + 8 + 4 > Go.u64OfInt (Go.len buf))) "invalid header length" fun _ =>
+  Go.slice buf 12 20 >>= fun t5 =>
+  Go.leU64 t5 >>= fun t4 =>
+  Go.slice buf 20 24 >>= fun t7 =>
+  Go.leU32 t7 >>= fun t6 =>
+  Go.idx buf 24 >>= fun t8 =>
+  guard (t8 != 1) "unsupported index version: want %d, got %d" fun _ =>
+  Go.slice buf 25 (Go.len buf) >>= fun t9 =>
+  metaUnmarshal fuel Indexmeta_Meta.zero t9 >>= fun t10 =>
+  guard (t4 == 0) "value size not set" fun _ =>
+  guard (t6 == 0) "number of buckets not set" fun _ =>
+  pure { ValueSize := t4, NumBuckets := t6, Metadata := t10 }
+
+theorem load_unfold (fuel : Nat) (h : Compactindexsized_Header) (buf : List UInt8) :
+    ciHeaderLoad fuel h buf = loadM fuel buf := by
+  unfold ciHeaderLoad loadM guard
+  rfl
+
+theorem u32_toNat (n : Nat) (h : n < 4294967296) : (UInt32.ofNat n).toNat = n := by
+  rw [UInt32.toNat_ofNat']; exact Nat.mod_eq_of_lt h
+
+theorem u64_toNat (n : Nat) (h : n < 18446744073709551616) : (UInt64.ofNat n).toNat = n := by
+  rw [UInt64.toNat_ofNat']; exact Nat.mod_eq_of_lt h
+
+/-- `Header.Load` (restated) = `loadSpec`; `buf.length < 2^63` is Go's `int` -/
+theorem loadM_eq_spec (buf : List UInt8) (fuel : Nat) (hf : 256 < fuel) (hlen : buf.length < 2 ^ 63) :
+    match loadSpec buf with
+    | some (vs, nb, m) => loadM fuel buf =
+        .ok { ValueSize := UInt64.ofNat vs, NumBuckets := UInt32.ofNat nb, Metadata := ofKvs m }
+    | none => ∃ t, loadM fuel buf = .error (.err t) := by
+  unfold loadSpec loadM
+  rw [guard_eq]
+  by_cases h12 : buf.length < 12
+  · have : Go.len buf < 12 := by unfold Go.len; omega
+    simp only [h12, if_true, this, decide_true]
+    exact ⟨_, rfl⟩
+  · have hl : ¬ (Go.len buf < 12) := by unfold Go.len; omega
+    simp only [h12, if_false, hl, decide_false, Bool.false_eq_true]
+    have s1 := slice_ok buf 0 8 (by omega) (by omega)
+    simp only [Int.natCast_zero, List.drop_zero, Nat.sub_zero] at s1
+    have s1' : Go.slice buf 0 8 = .ok (buf.take 8) := s1
+    rw [s1', bind_ok, guard_eq]
+    have hmag : CI.magic = [99, 111, 109, 112, 105, 115, 122, 100] := rfl
+    rw [hmag]
+    by_cases hm : buf.take 8 ≠ [99, 111, 109, 112, 105, 115, 122, 100]
+    · have : (buf.take 8 != [99, 111, 109, 112, 105, 115, 122, 100]) = true := by simpa using hm
+      simp only [hm, if_true, this, ne_eq, not_false_eq_true]
+      exact ⟨_, rfl⟩
+    · have hb : ¬ ((buf.take 8 != [99, 111, 109, 112, 105, 115, 122, 100]) = true) := by simpa using hm
+      simp only [hm, if_false, hb]
+      have s2 := slice_ok buf 8 12 (by omega) (by omega)
+      have s2' : Go.slice buf 8 12 = .ok ((buf.drop 8).take 4) := s2
+      rw [s2', bind_ok]
+      have hlen4 : ((buf.drop 8).take 4).length = 4 := by simp; omega
+      have hle : Go.leU32 ((buf.drop 8).take 4) = .ok (UInt32.ofNat (B.unle ((buf.drop 8).take 4))) := by
+        unfold Go.leU32
+        rw [if_pos (by omega), leDecode_eq_unle, List.take_take]; rfl
+      rw [hle, bind_ok]
+      simp only [Bool.false_eq_true, if_false]
+      have hl32 := unle4_lt (buf.drop 8)
+      generalize B.unle ((buf.drop 8).take 4) = l at hl32 ⊢
+      rw [guard_eq]
+      have hlt13 : (UInt32.ofNat l < 13) ↔ l < 13 := by
+        rw [UInt32.lt_iff_toNat_lt, u32_toNat l hl32]; rfl
+      have hgt : (UInt32.ofNat l > 130574) ↔ l > 130574 := by
+        rw [gt_iff_lt, UInt32.lt_iff_toNat_lt, u32_toNat l hl32]; rfl
+      by_cases hr : l < 13 ∨ l > 130574
+      · have : (decide (UInt32.ofNat l < 13) || decide (UInt32.ofNat l > 130574)) = true := by
+          simp only [Bool.or_eq_true, decide_eq_true_eq, hlt13, hgt]; exact hr
+        simp only [hr, if_true, this]
+        exact ⟨_, rfl⟩
+      · have hb2 : ¬ ((decide (UInt32.ofNat l < 13) || decide (UInt32.ofNat l > 130574)) = true) := by
+          simp only [Bool.or_eq_true, decide_eq_true_eq, hlt13, hgt]; exact hr
+        simp only [hr, if_false, hb2]
+        rw [guard_eq]
+        have hcmp : (UInt32.ofNat l).toUInt64 + 8 + 4 > Go.u64OfInt (Go.len buf) ↔ l + 12 > buf.length := by
+          rw [gt_iff_lt, UInt64.lt_iff_toNat_lt]
+          have h1 : (Go.u64OfInt (Go.len buf)).toNat = buf.length := by
+            unfold Go.u64OfInt Go.len
+            rw [UInt64.toNat_ofNat']
+            have : ((buf.length : Int) % 18446744073709551616).toNat = buf.length := by omega
+            rw [this]; apply Nat.mod_eq_of_lt; omega
+          have h2 : ((UInt32.ofNat l).toUInt64 + 8 + 4).toNat = l + 12 := by
+            rw [UInt64.toNat_add, UInt64.toNat_add, UInt32.toNat_toUInt64, u32_toNat l hl32]
+            have e8 : (8 : UInt64).toNat = 8 := rfl
+            have e4 : (4 : UInt64).toNat = 4 := rfl
+            rw [e8, e4]
+            omega
+          rw [h1, h2]
+        by_cases hc : l + 12 > buf.length
+        · have : decide ((UInt32.ofNat l).toUInt64 + 8 + 4 > Go.u64OfInt (Go.len buf)) = true := by
+            simp only [decide_eq_true_eq]; exact hcmp.mpr hc
+          simp only [hc, if_true, this]
+          exact ⟨_, rfl⟩
+        · have hb3 : ¬ (decide ((UInt32.ofNat l).toUInt64 + 8 + 4 > Go.u64OfInt (Go.len buf)) = true) := by
+            simp only [decide_eq_true_eq]; exact fun x => hc (hcmp.mp x)
+          simp only [hc, if_false, hb3]
+          have hge25 : 25 ≤ buf.length := by omega
+          simp only [Bool.false_eq_true, if_false]
+          have s3 : Go.slice buf 12 20 = .ok ((buf.drop 12).take 8) := slice_ok buf 12 20 (by omega) (by omega)
+          have s4 : Go.slice buf 20 24 = .ok ((buf.drop 20).take 4) := slice_ok buf 20 24 (by omega) (by omega)
+          have l8 : ((buf.drop 12).take 8).length = 8 := by simp; omega
+          have l4 : ((buf.drop 20).take 4).length = 4 := by simp; omega
+          have e8 : Go.leU64 ((buf.drop 12).take 8) = .ok (UInt64.ofNat (B.unle ((buf.drop 12).take 8))) := by
+            unfold Go.leU64
+            rw [if_pos (by omega), leDecode_eq_unle, List.take_take]; rfl
+          have e4 : Go.leU32 ((buf.drop 20).take 4) = .ok (UInt32.ofNat (B.unle ((buf.drop 20).take 4))) := by
+            unfold Go.leU32
+            rw [if_pos (by omega), leDecode_eq_unle, List.take_take]; rfl
+          have e24 : Go.idx buf 24 = .ok (buf.getD 24 0) := by
+            unfold Go.idx
+            rw [if_pos (by omega)]; rfl
+          have s5 : Go.slice buf 25 (Go.len buf) = .ok (buf.drop 25) := by
+            have := slice_ok buf 25 buf.length (by omega) (by omega)
+            rw [List.take_of_length_le (by simp)] at this
+            exact this
+          rw [s3, bind_ok, e8, bind_ok, s4, bind_ok, e4, bind_ok, e24, bind_ok, guard_eq]
+          have hvs := unle8_lt (buf.drop 12)
+          have hnb := unle4_lt (buf.drop 20)
+          generalize B.unle ((buf.drop 12).take 8) = vs at hvs ⊢
+          generalize B.unle ((buf.drop 20).take 4) = nb at hnb ⊢
+          by_cases hv : buf.getD 24 0 ≠ 1
+          · have : (buf.getD 24 0 != 1) = true := by simpa using hv
+            simp only [hv, if_true, this, ne_eq, not_false_eq_true]
+            exact ⟨_, rfl⟩
+          · have hb4 : ¬ ((buf.getD 24 0 != 1) = true) := by simpa using hv
+            simp only [hv, if_false, hb4]
+            rw [s5, bind_ok]
+            have hmeta := gen_metaUnmarshal_eq_model (buf.drop 25) fuel hf
+            cases hd : IndexMeta.decode (buf.drop 25) with
+            | none =>
+              rw [hd] at hmeta
+              obtain ⟨t, ht⟩ := hmeta
+              exact ⟨t, by rw [ht]; rfl⟩
+            | some m =>
+              rw [hd] at hmeta
+              simp only [hmeta, bind_ok]
+              rw [guard_eq]
+              have hz8 : ((UInt64.ofNat vs == 0) = true) ↔ vs = 0 := by
+                rw [beq_iff_eq, ← UInt64.toNat_inj, u64_toNat vs hvs]; rfl
+              have hz4 : ((UInt32.ofNat nb == 0) = true) ↔ nb = 0 := by
+                rw [beq_iff_eq, ← UInt32.toNat_inj, u32_toNat nb hnb]; rfl
+              by_cases hvz : vs = 0
+              · simp only [hvz, if_true]
+                exact ⟨_, rfl⟩
+              · have : ¬ ((UInt64.ofNat vs == 0) = true) := fun x => hvz (hz8.mp x)
+                simp only [hvz, if_false, this]
+                rw [guard_eq]
+                by_cases hnz : nb = 0
+                · simp only [hnz, if_true]
+                  exact ⟨_, rfl⟩
+                · have : ¬ ((UInt32.ofNat nb == 0) = true) := fun x => hnz (hz4.mp x)
+                  simp only [hnz, if_false, this]
+                  rfl
+
+/-- **direct theorem on the translated code**: `Header.Load(buf)` = `loadSpec buf`, for every byte string (of a length a
+    Go slice can have), every prior receiver content and every fuel above the 255 pairs the count byte can announce;
+    in particular `Load` never panics -/
+theorem gen_ciHeaderLoad_eq_spec (h : Compactindexsized_Header) (buf : List UInt8) (fuel : Nat) (hf : 256 < fuel)
+    (hlen : buf.length < 2 ^ 63) :
+    match loadSpec buf with
+    | some (vs, nb, m) => ciHeaderLoad fuel h buf =
+        .ok { ValueSize := UInt64.ofNat vs, NumBuckets := UInt32.ofNat nb, Metadata := ofKvs m }
+    | none => ∃ t, ciHeaderLoad fuel h buf = .error (.err t) := by
+  rw [load_unfold]; exact loadM_eq_spec buf fuel hf hlen
+
+theorem gen_ciHeaderLoad_never_panics (h : Compactindexsized_Header) (buf : List UInt8) (fuel : Nat) (hf : 256 < fuel)
+    (hlen : buf.length < 2 ^ 63) : ∀ w, ciHeaderLoad fuel h buf ≠ .error (.panic w) := by
+  intro w hw
+  have := gen_ciHeaderLoad_eq_spec h buf fuel hf hlen
+  cases hs : loadSpec buf with
+  | none => rw [hs] at this; obtain ⟨t, ht⟩ := this; rw [ht] at hw; cases hw
+  | some r => obtain ⟨vs, nb, m⟩ := r; rw [hs] at this; simp only at this; rw [this] at hw; cases hw
+
+/-- the result does not depend on what the receiver held before -/
+theorem gen_ciHeaderLoad_receiver_irrelevant (h h' : Compactindexsized_Header) (buf : List UInt8) (fuel : Nat) :
+    ciHeaderLoad fuel h buf = ciHeaderLoad fuel h' buf := by rw [load_unfold, load_unfold]
+
+/-- **the format `Load` reads is the format the builder writes**: on the header bytes of the model's encoder
+    (`CI.headerBytes`, compared byte for byte with the real builder's files on every run) `loadSpec` returns the fields -/
+theorem loadSpec_headerBytes (vs nb : Nat) (m : IndexMeta.KVs) (hvs : 0 < vs) (hvs2 : vs < 2 ^ 64) (hnb : 0 < nb)
+    (hnb2 : nb < 2 ^ 32) (hml : m.length ≤ 255) (hm : ∀ kv ∈ m, kv.1.length ≤ 255 ∧ kv.2.length ≤ 255) :
+    loadSpec (CI.headerBytes vs nb m) = some (vs, nb, m) := by
+  have hmb := CI.metaBytes_length_le m hm
+  obtain ⟨MB, hMB⟩ : ∃ MB, MB = CI.metaBytes m := ⟨_, rfl⟩
+  have hver : (UInt8.ofNat Generated.compactindexsizedVersion) = 1 := rfl
+  have hH : CI.headerBytes vs nb m
+      = CI.magic ++ (B.le 4 (13 + MB.length) ++ (B.le 8 vs ++ (B.le 4 nb ++ (1 :: MB)))) := by
+    unfold CI.headerBytes
+    simp only [List.length_append, B.le_length, List.length_cons, List.append_assoc, hver, ← hMB,
+      List.cons_append, List.nil_append]
+    congr 3
+    omega
+  have hmag : CI.magic.length = 8 := rfl
+  have hlen : (CI.headerBytes vs nb m).length = 25 + MB.length := by rw [CI.headerBytes_length, hMB]
+  rw [← hMB] at hmb
+  have t8 : (CI.headerBytes vs nb m).take 8 = CI.magic := by
+    rw [hH]; have := CI.take_length_append CI.magic (B.le 4 (13 + MB.length) ++ (B.le 8 vs ++ (B.le 4 nb ++ (1 :: MB))))
+    rwa [hmag] at this
+  have d8 : (CI.headerBytes vs nb m).drop 8 = B.le 4 (13 + MB.length) ++ (B.le 8 vs ++ (B.le 4 nb ++ (1 :: MB))) := by
+    rw [hH]; have := CI.drop_length_append CI.magic (B.le 4 (13 + MB.length) ++ (B.le 8 vs ++ (B.le 4 nb ++ (1 :: MB))))
+    rwa [hmag] at this
+  have d12 : (CI.headerBytes vs nb m).drop 12 = B.le 8 vs ++ (B.le 4 nb ++ (1 :: MB)) := by
+    have : (12 : Nat) = 8 + 4 := rfl
+    rw [this, ← List.drop_drop, d8]
+    have := CI.drop_length_append (B.le 4 (13 + MB.length)) (B.le 8 vs ++ (B.le 4 nb ++ (1 :: MB)))
+    rwa [B.le_length] at this
+  have d20 : (CI.headerBytes vs nb m).drop 20 = B.le 4 nb ++ (1 :: MB) := by
+    have : (20 : Nat) = 12 + 8 := rfl
+    rw [this, ← List.drop_drop, d12]
+    have := CI.drop_length_append (B.le 8 vs) (B.le 4 nb ++ (1 :: MB))
+    rwa [B.le_length] at this
+  have d24 : (CI.headerBytes vs nb m).drop 24 = 1 :: MB := by
+    have : (24 : Nat) = 20 + 4 := rfl
+    rw [this, ← List.drop_drop, d20]
+    have := CI.drop_length_append (B.le 4 nb) (1 :: MB)
+    rwa [B.le_length] at this
+  have d25 : (CI.headerBytes vs nb m).drop 25 = MB := by
+    have : (25 : Nat) = 24 + 1 := rfl
+    rw [this, ← List.drop_drop, d24]; rfl
+  have g24 : (CI.headerBytes vs nb m).getD 24 0 = 1 := by
+    rw [List.getD, ← List.head?_drop, d24]; rfl
+  have f4 : ((CI.headerBytes vs nb m).drop 8).take 4 = B.le 4 (13 + MB.length) := by
+    rw [d8]; have := CI.take_length_append (B.le 4 (13 + MB.length)) (B.le 8 vs ++ (B.le 4 nb ++ (1 :: MB)))
+    rwa [B.le_length] at this
+  have f8 : ((CI.headerBytes vs nb m).drop 12).take 8 = B.le 8 vs := by
+    rw [d12]; have := CI.take_length_append (B.le 8 vs) (B.le 4 nb ++ (1 :: MB))
+    rwa [B.le_length] at this
+  have f4b : ((CI.headerBytes vs nb m).drop 20).take 4 = B.le 4 nb := by
+    rw [d20]; have := CI.take_length_append (B.le 4 nb) (1 :: MB)
+    rwa [B.le_length] at this
+  have u1 : B.unle (B.le 4 (13 + MB.length)) = 13 + MB.length := B.unle_le_of_lt 4 _ (by rw [CI.pow4]; omega)
+  have u2 : B.unle (B.le 8 vs) = vs := B.unle_le_of_lt 8 _ (by rw [CI.pow8]; exact hvs2)
+  have u3 : B.unle (B.le 4 nb) = nb := B.unle_le_of_lt 4 _ (by rw [CI.pow4]; exact hnb2)
+  have hdec : IndexMeta.decode MB = some m := by rw [hMB]; exact CI.parseMeta_enc m hml hm
+  unfold loadSpec
+  simp only [t8, f4, f8, f4b, u1, u2, u3, g24, d25, hdec, hlen, ne_eq, not_true_eq_false, if_false]
+  rw [if_neg (by omega), if_neg (by omega), if_neg (by omega), if_neg (by omega), if_neg (by omega)]
+
+/-- hence the translated `Load` reads back exactly what the encoder wrote -/
+theorem gen_ciHeaderLoad_headerBytes (h : Compactindexsized_Header) (fuel : Nat) (hf : 256 < fuel)
+    (vs nb : Nat) (m : IndexMeta.KVs) (hvs : 0 < vs) (hvs2 : vs < 2 ^ 64) (hnb : 0 < nb)
+    (hnb2 : nb < 2 ^ 32) (hml : m.length ≤ 255) (hm : ∀ kv ∈ m, kv.1.length ≤ 255 ∧ kv.2.length ≤ 255) :
+    ciHeaderLoad fuel h (CI.headerBytes vs nb m)
+      = .ok { ValueSize := UInt64.ofNat vs, NumBuckets := UInt32.ofNat nb, Metadata := ofKvs m } := by
+  have hmb := CI.metaBytes_length_le m hm
+  have := gen_ciHeaderLoad_eq_spec h (CI.headerBytes vs nb m) fuel hf (by rw [CI.headerBytes_length]; omega)
+  rw [loadSpec_headerBytes vs nb m hvs hvs2 hnb hnb2 hml hm] at this
+  exact this
+
+/-! examples: the spec and the theorem are not vacuous -/
+example : loadSpec (CI.headerBytes 36 1 [([107], [1, 2])]) = some (36, 1, [([107], [1, 2])]) := by
+  apply loadSpec_headerBytes <;> simp
+example : loadSpec (CI.magic ++ [12, 0, 0, 0] ++ List.replicate 12 1) = none := by decide
+example : loadSpec ([0] ++ List.replicate 40 1) = none := by decide
 
 end GoTies.CIHeader
